@@ -554,8 +554,7 @@ def enable_watchdog(cap: int) -> None:
     mon.register_callback(_MON_WATCH, mon.events.JUMP, on_branch)
     mon.register_callback(_MON_WATCH, mon.events.BRANCH, on_branch)
     for co in tawazi_code_objects():
-        if co.co_name in ("async_execute", "sync_execute") or "wait_for_finished" in co.co_name:
-            mon.set_local_events(_MON_WATCH, co, mon.events.JUMP | mon.events.BRANCH)
+        mon.set_local_events(_MON_WATCH, co, mon.events.JUMP | mon.events.BRANCH)
     _watch["on"] = True
 
 
@@ -568,6 +567,7 @@ def watchdog_reset() -> int:
 
 
 def enable_line_preemption(root: str) -> None:
+    """LINE events on tawazi code objects only: a client thread can be pre-empted between two tawazi source lines."""
     mon = sys.monitoring
     _line["root"] = root
     if _line["on"]:
@@ -575,13 +575,11 @@ def enable_line_preemption(root: str) -> None:
     mon.use_tool_id(_MON_LINE, "sim-preempt")
 
     def on_line(code: Any, line: int) -> Any:
-        if not code.co_filename.startswith(_line["root"]):
-            return mon.DISABLE
         rt = RT
         if rt is None:
             return None
         p = rt.sim.me()
-        if p is None or p.kind != "client":
+        if p is None or p.kind != "client" or rt.sim.abort:
             return None
         _line["n"] += 1
         if _line["n"] in _line["armed"]:
@@ -591,12 +589,11 @@ def enable_line_preemption(root: str) -> None:
         return None
 
     mon.register_callback(_MON_LINE, mon.events.LINE, on_line)
-    mon.set_events(_MON_LINE, mon.events.LINE)
+    for co in tawazi_code_objects():
+        mon.set_local_events(_MON_LINE, co, mon.events.LINE)
     _line["on"] = True
 
 
 def arm_lines(points: set) -> None:
     _line["n"] = 0
     _line["armed"] = set(points)
-    if _line["on"]:
-        sys.monitoring.restart_events()
